@@ -40,7 +40,7 @@ def expected_password_reports(tree):
             nm = name_of(n.target)
             if nm and matches(nm):
                 exp.append(("B105", n.value.value, "annotated-assignment"))
-        elif isinstance(n, ast.Compare) and len(n.ops) == 1 and isinstance(n.ops[0], (ast.Eq, ast.NotEq)):
+        elif isinstance(n, ast.Compare) and len(n.ops) == 1:
             nm = name_of(n.left)
             if nm and matches(nm) and is_str(n.comparators[0]):
                 exp.append(("B105", n.comparators[0].value, "compare"))
@@ -87,8 +87,11 @@ def oracle(p, o):
     if not inc or {"B105", "B106", "B107"} <= inc:
         for tid, lit, cls in expected_password_reports(tree):
             if (tid, "Possible hardcoded password: '%s'" % lit) not in texts:
+                sig = GAPS.get(cls)
+                if sig is None and any(t == tid for t, _ in texts):
+                    sig = "one-report-per-node"      # the check returns at its first hit
                 bad("string literal %r in position '%s' for a name matching the documented pattern is not reported as %s quoting the literal"
-                    % (lit, cls, tid), GAPS.get(cls))
+                    % (lit, cls, tid), sig)
         # nothing is reported for non-matching names / non-literals: every password report must be justified
         want = {(tid, "Possible hardcoded password: '%s'" % lit) for tid, lit, _ in expected_password_reports(tree)}
         for r in o["results"]:
@@ -133,6 +136,8 @@ def oracle(p, o):
             last = (q or "").split(".")[-1]
             if last != "chmod":
                 continue
+            if any(isinstance(a, ast.Starred) for a in call.args) or any(k.arg is None for k in call.keywords):
+                continue
             mode = None
             how = None
             if len(call.args) == 2 and not call.keywords:
@@ -143,7 +148,8 @@ def oracle(p, o):
                 continue
             m = mode.value
             danger = bool(m & 0o033)
-            hits = [r for r in o["results"] if r["test_id"] == "B103" and r["lineno"] == call.lineno]
+            hits = [r for r in o["results"] if r["test_id"] == "B103" and r["lineno"] == call.lineno
+                    and ("mask %s on" % oct(m)) in r["text"]]
             if danger and not hits:
                 bad("chmod with literal mode %s grants group/world write or execute but B103 is not reported" % oct(m),
                     "b103-mode-by-keyword" if how == "keyword" else None)
